@@ -2,7 +2,10 @@
 
 package corebgp
 
-import "time"
+import (
+	"net/netip"
+	"time"
+)
 
 // C14 — the OPEN corebgp sends reflects configuration and plugin capabilities.
 
@@ -133,4 +136,40 @@ func Verif_C14_open_on_the_wire() {
 	}
 	c14CheckOpen(enc, e.cfg.localAS, e.cfg.holdSec, e.cfg.localID, e.pl.caps)
 	e.p.stop()
+}
+
+// options are per peer: what one AddPeer call was given does not leak into the OPEN of a peer added later
+func Verif_C14_Arith_options_are_per_peer() {
+	verifEngineOnly()
+	verifNote("one server, peer A added with WithHoldTime(h) (h symbolic, 0 or >= 3) and a local address, then peer B added with no option but WithPassive: the OPEN sent on an inbound connection of B carries the default hold time (90 s), the OPEN of A carries h; both carry the server's router id")
+	h := verifU16("holdA")
+	verifAssume(verifOr(h == 0, h >= 3))
+	s, _ := NewServer(netip.AddrFrom4([4]byte{10, 0, 0, 1}))
+	ra, rb := netip.AddrFrom4([4]byte{192, 0, 2, 1}), netip.AddrFrom4([4]byte{192, 0, 2, 2})
+	pa, pb := newMonPlugin(), newMonPlugin()
+	verifAssert("addpeer-a", s.AddPeer(PeerConfig{RemoteAddress: ra, LocalAS: 65000, RemoteAS: 65001}, pa, WithHoldTime(h), WithPassive(), WithLocalAddress(netip.AddrFrom4([4]byte{10, 0, 0, 1}))) == nil)
+	verifAssert("addpeer-b", s.AddPeer(PeerConfig{RemoteAddress: rb, LocalAS: 65000, RemoteAS: 65002}, pb, WithPassive()) == nil)
+	for k, r := range []netip.Addr{rb, ra} {
+		p := s.peers[r.String()]
+		if p == nil {
+			verifAssert("peer-registered", false)
+			return
+		}
+		p.start()
+		c := newStagedConn("in")
+		p.incomingConnection(c)
+		verifQuiesce()
+		verifAssert("open-written", c.wroteOpenFirst())
+		if len(c.writes) >= 1 && len(c.writes[0]) >= 29 {
+			o := c.writes[0]
+			want := uint16(DefaultHoldTimeSeconds)
+			if k == 1 {
+				want = h
+			}
+			verifAssert("open-carries-this-peers-hold-time", uint16(o[22])<<8|uint16(o[23]) == want)
+			verifAssert("open-carries-the-router-id", o[24] == 10 && o[25] == 0 && o[26] == 0 && o[27] == 1)
+		}
+		p.stop()
+	}
+	verifCover("per-peer-options")
 }
